@@ -163,6 +163,7 @@ def instances(tier):
                                 min_paths=_spans(kv, p) + 1, p=p, kv=kv, dim=dim, rational=rational))
         # unclamped uniform, non-normalised domain, binary search, normalize_kv=True
         out.append(inst('curve p%d unclamped rat' % p, h_curve, min_paths=2, p=p, kv=fam.unclamped_uniform(p, p + 3), dim=2, rational=True))
+        out.append(inst('curve p%d unclamped nonrat' % p, h_curve, min_paths=2, p=p, kv=fam.unclamped_unit(p, p + 2), dim=2, rational=False))
         out.append(inst('curve p%d domain[2,5] rat' % p, h_curve, min_paths=3, p=p, kv=fam.pattern(p, (1, 1), 2, 5), dim=2, rational=True))
         out.append(inst('curve p%d binsearch' % p, h_curve, min_paths=3, p=p, kv=fam.pattern(p, (1, p)), dim=2, rational=False, span='find_span_binsearch'))
         out.append(inst('curve p%d normalize_kv' % p, h_curve, min_paths=3, p=p, kv=fam.pattern(p, (1, 1)), dim=2, rational=True, normalize=True))
@@ -179,6 +180,9 @@ def instances(tier):
         for rational in (False, True):
             out.append(inst('curvegrid p%d m%s ss%d %s' % (p, m, ss, 'rat' if rational else 'nonrat'), h_curve_grid,
                             p=p, kv=fam.pattern(p, m), dim=2, rational=rational, ss=ss))
+    for p in (1, 2, 3):
+        out.append(inst('curvegrid p%d unclamped ss4' % p, h_curve_grid, p=p, kv=fam.unclamped_unit(p, p + 2), dim=2, rational=(p == 2), ss=4))
+        out.append(inst('curvegrid p%d unclamped[p,n] ss3' % p, h_curve_grid, p=p, kv=fam.unclamped_uniform(p, p + 3), dim=2, rational=(p != 2), ss=3))
     out.append(inst('curvegrid p2 domain[2,5] ss4', h_curve_grid, p=2, kv=fam.pattern(2, (1,), 2, 5), dim=2, rational=True, ss=4))
     # surfaces
     surf = [((1, 2), ((1,), ())), ((2, 1), ((), (1,))), ((2, 2), ((1,), (2,))), ((3, 2), ((), (1,)))]
